@@ -116,6 +116,21 @@ pub fn run_block(btr: &BlockTranslationResult, st: &mut IlState) -> LiftEnd {
     select_successor(btr, st)
 }
 
+/// Run a lifted block the way the executor would: a `Branch` operation hands control to its target at once
+/// (nothing behind it in the block is executed); without one, the enabled successor decides.
+pub fn run_block_until_branch(btr: &BlockTranslationResult, st: &mut IlState) -> LiftEnd {
+    for (addr, cfg) in btr.instructions() {
+        let f = Function::new(*addr, cfg.clone());
+        st.executed.push(*addr);
+        match run_graph(&f, st, 4000) {
+            Ok(None) => {}
+            Ok(Some(t)) => return LiftEnd::Next(t),
+            Err(e) => return e,
+        }
+    }
+    select_successor(btr, st)
+}
+
 pub fn select_successor(btr: &BlockTranslationResult, st: &IlState) -> LiftEnd {
     let sc = &st.scalars;
     let mut enabled = Vec::new();
